@@ -73,7 +73,7 @@ class Leaf:
         if k in ('Y', 'Z'):
             return [k, imm_tok(p[0])]
         if k in ('V', 'I'):
-            return [k, p[0], imm_tok(p[1]) if p[0] == 'sdom' else fstr(p[1])]
+            return [k, p[0], imm_tok(p[1]) if p[0] in ('sdom', 'ac') else fstr(p[1])]
         if k == 'CPE':
             return ['CPE', fstr(p[0]), str(p[1])]
         if k == 'X':
@@ -94,7 +94,7 @@ class Leaf:
     def kinds(self):
         k = self.kind
         if k in ('V', 'I'):
-            return [{'gen': '', 'dc': 'dc', 'step': 'step', 'sdom': 's'}[self.p[0]] + k if self.p[0] != 'gen' else k]
+            return [{'gen': '', 'dc': 'dc', 'step': 'step', 'sdom': 's', 'ac': 'ac'}[self.p[0]] + k if self.p[0] != 'gen' else k]
         return [k]
 
 
@@ -138,6 +138,8 @@ def imm_str(im):
         return '%s/s' % a
     if k == 'p':
         return '%s/(s+(%s))' % (a, fstr(im[2]))
+    if k == 'q':
+        return '%s*s/(s**2+(%s)**2)' % (a, fstr(im[2]))
     raise ValueError(k)
 
 
@@ -181,6 +183,9 @@ class Lc:
             return L.Y(imm_str(p[0]))
         if k == 'Z':
             return L.Z(imm_str(p[0]))
+        if k in ('V', 'I') and p[0] == 'ac':
+            # amplitude a, phase 0, angular frequency w: a cos(w t), Laplace transform a s / (s^2 + w^2)
+            return (L.Vac if k == 'V' else L.Iac)(A(p[1][1]), 0, A(p[1][2]))
         if k == 'V':
             cls = {'gen': L.V, 'dc': L.Vdc, 'step': L.Vstep, 'sdom': L.sV}[p[0]]
             return cls(imm_str(p[1])) if p[0] == 'sdom' else cls(A(p[1]))
@@ -268,12 +273,13 @@ def gen_leaf(rng, family, role):
     if family == 'transient':
         kinds = ['R', 'R', 'G', 'L', 'L', 'C', 'C', 'Y', 'Z', 'CPE', 'X', 'FB', 'Vstep', 'sV', 'Istep', 'sI']
     else:
-        kinds = ['R', 'R', 'G', 'G', 'Yk', 'Zk', 'Vgen', 'Vdc', 'Vstep', 'Igen', 'Idc', 'Istep']
+        # (phasor sources are analysed in steady state: the Laplace-point relation only in a memoryless network)
+        kinds = ['R', 'R', 'G', 'G', 'Yk', 'Zk', 'Vgen', 'Vdc', 'Vstep', 'Igen', 'Idc', 'Istep', 'Vac', 'Iac']
     while True:
         k = rng.choice(kinds)
-        if role == 'noV' and k in ('Vstep', 'sV', 'Vgen', 'Vdc'):
+        if role == 'noV' and k in ('Vstep', 'sV', 'Vgen', 'Vdc', 'Vac'):
             continue
-        if role == 'noI' and k in ('Istep', 'sI', 'Igen', 'Idc'):
+        if role == 'noI' and k in ('Istep', 'sI', 'Igen', 'Idc', 'Iac'):
             continue
         break
     if k == 'R':
@@ -302,6 +308,8 @@ def gen_leaf(rng, family, role):
         return Leaf('V', {'Vstep': 'step', 'Vgen': 'gen', 'Vdc': 'dc'}[k], rnd_any(rng))
     if k in ('Istep', 'Igen', 'Idc'):
         return Leaf('I', {'Istep': 'step', 'Igen': 'gen', 'Idc': 'dc'}[k], rnd_any(rng))
+    if k in ('Vac', 'Iac'):
+        return Leaf(k[0], 'ac', ('q', rnd_any(rng), Fraction(rng.randint(1, 6))))
     if k == 'sV':
         return Leaf('V', 'sdom', rnd_imm(rng))
     if k == 'sI':
@@ -596,7 +604,7 @@ def run_oneport(chk, drv, L, state):
         has_ic = tree.has_ic()
         has_fb = 'FB' in tree.kinds()
         kk = set(tree.kinds())
-        mixed = bool(kk & {'V', 'I', 'dcV', 'dcI'}) and bool(kk & {'stepV', 'stepI', 'sV', 'sI'})
+        mixed = bool(kk & {'V', 'I', 'dcV', 'dcI', 'acV', 'acI'}) and bool(kk & {'stepV', 'stepI', 'sV', 'sI'})
         nontrivial = (tOK or nOK) and tree.depth() >= 1
         chk.case((toks, s), nontrivial)
         chk.count('family', family + ('-illposed' if illposed else ''))
@@ -718,7 +726,7 @@ def run_oneport(chk, drv, L, state):
                             '(Y, Isc) reported by the %s route is not the relation of the network' % route)
 
         # ---- thevenin() / norton(): the equivalent network must have the relation of the original
-        transient_drive = (bool(kk & {'stepV', 'stepI', 'sV', 'sI'}) or has_ic) and not (kk & {'V', 'I', 'dcV', 'dcI'})
+        transient_drive = (bool(kk & {'stepV', 'stepI', 'sV', 'sI'}) or has_ic) and not (kk & {'V', 'I', 'dcV', 'dcI', 'acV', 'acI'})
         if family == 'combine' and transient_drive and not zero_elt:
             # (without a transient drive thevenin()/norton() deliberately return the DC / AC equivalent)
             for meth, pre, req in (('thevenin', tOK, 'op.thev'), ('norton', nOK, 'op.nort')):
